@@ -89,6 +89,7 @@ struct EncLayout {
     unsigned first_frame = 1;
     bool events = false;
     bool byte_params = false, three_d_params = false, long_desc = false;
+    bool reserved_nonzero = false;    // non-zero bytes in the reserved header words (readers must carry or ignore them)
     uint64_t seed = 1;
 };
 struct EncContent {
